@@ -1,0 +1,58 @@
+//go:build verif
+
+package rib
+
+import (
+	"sort"
+
+	spb "github.com/openconfig/gribi/v1/proto/service"
+)
+
+// This file is compiled only with the "verif" build tag. It adds read-only
+// snapshots of internal RIB state for external verification harnesses and
+// changes no behaviour.
+
+// VerifPendingOp describes one held (pending) operation.
+type VerifPendingOp struct {
+	ID uint64
+	NI string
+	Op *spb.AFTOperation
+}
+
+// VerifPending returns the held operations sorted by operation ID.
+func (r *RIB) VerifPending() []VerifPendingOp {
+	r.pendMu.RLock()
+	defer r.pendMu.RUnlock()
+	out := make([]VerifPendingOp, 0, len(r.pendingEntries))
+	for id, e := range r.pendingEntries {
+		out = append(out, VerifPendingOp{ID: id, NI: e.ni, Op: e.op})
+	}
+	sort.Slice(out, func(i, j int) bool { return out[i].ID < out[j].ID })
+	return out
+}
+
+// VerifRefCounts is a copy of the reference counters of one network instance.
+type VerifRefCounts struct {
+	NextHop      map[uint64]uint64
+	NextHopGroup map[uint64]uint64
+}
+
+// VerifRefCounts returns a copy of the per network instance reference counters.
+func (r *RIB) VerifRefCounts() map[string]VerifRefCounts {
+	r.nrMu.RLock()
+	defer r.nrMu.RUnlock()
+	out := map[string]VerifRefCounts{}
+	for name, h := range r.niRIB {
+		h.refCounts.mu.RLock()
+		c := VerifRefCounts{NextHop: map[uint64]uint64{}, NextHopGroup: map[uint64]uint64{}}
+		for k, v := range h.refCounts.NextHop {
+			c.NextHop[k] = v
+		}
+		for k, v := range h.refCounts.NextHopGroup {
+			c.NextHopGroup[k] = v
+		}
+		h.refCounts.mu.RUnlock()
+		out[name] = c
+	}
+	return out
+}
